@@ -18,6 +18,8 @@ CACHE = os.path.join(VERIF, ".cache")
 COQ = os.path.join(VERIF, "coq")
 HARNESS = os.path.join(VERIF, "harness")
 NPROC = str(os.cpu_count() or 4)
+# scratch copies of the repository (VERIF_REPO) get a target directory of their own
+TARGET = "target" if os.path.abspath(REPO) == "/repo" else "target_alt"
 
 TRUSTED_BASE = [
     "Coq 8.16.1 kernel and coqc; vm_compute (bytecode VM) for finite table lemmas; no native_compute",
@@ -42,7 +44,7 @@ class Ctx:
         self.workdir = os.path.join(CACHE, "work", prop)
         os.makedirs(self.workdir, exist_ok=True)
         self.mdl = os.path.join(CACHE, "ocaml", "mdl")
-        self.harness_bin = os.path.join(CACHE, "target", "debug", "verif_harness")
+        self.harness_bin = os.path.join(CACHE, TARGET, "debug", "verif_harness")
         self.tables_info = None
         self.assumptions_out = ""
         self.obligations = 0
@@ -309,7 +311,29 @@ def step_model(ctx):
     return True
 
 
-def step_harness(ctx, features=None, target="target", release=False):
+def harness_dir():
+    """The harness crate names /repo in its path dependencies; when VERIF_REPO points elsewhere
+    (scratch copies used to try seeded changes) build from a staged copy with the paths rewritten."""
+    if os.path.abspath(REPO) == "/repo":
+        return HARNESS
+    stage = os.path.join(CACHE, "harness_stage")
+    os.makedirs(os.path.join(stage, "src"), exist_ok=True)
+    for f in os.listdir(os.path.join(HARNESS, "src")):
+        src = os.path.join(HARNESS, "src", f)
+        dst = os.path.join(stage, "src", f)
+        data = open(src, "rb").read()
+        if not os.path.exists(dst) or open(dst, "rb").read() != data:
+            open(dst, "wb").write(data)
+    toml = open(os.path.join(HARNESS, "Cargo.toml")).read().replace('"/repo/', '"' + os.path.abspath(REPO) + "/")
+    dst = os.path.join(stage, "Cargo.toml")
+    if not os.path.exists(dst) or open(dst).read() != toml:
+        open(dst, "w").write(toml)
+    return stage
+
+
+def step_harness(ctx, features=None, target=None, release=False):
+    target = target or TARGET
+    HARNESS = harness_dir()
     shutil.copy(os.path.join(REPO, "Cargo.lock"), os.path.join(HARNESS, "Cargo.lock"))
     cmd = ["cargo", "build", "--offline", "--quiet"]
     if release:
